@@ -242,6 +242,8 @@ def cleanJunctions (net : Net K) (group : List (Elt K)) : List String :=
   let cand := ((group.flatMap (fun e => e.nodes.take 2)).map nm).eraseDups
   cand.filter (fun n =>
     n ≠ "0" &&
+    -- a wire attached to the junction is itself an untouched component that sees the node
+    !(net.any (fun e => isWire e && e.nodes.any (fun x => nm x = n))) &&
     (match incidences net n with
      | [a, b] => a.1 ≠ b.1 && group.any (·.name = a.1) && group.any (·.name = b.1)
      | _ => false))
